@@ -158,6 +158,13 @@ def _eval_perm(fn: ast.FunctionDef, module_assigns: Dict[str, ast.AST], d: int):
                 else:
                     out.append(ev(x))
             return tuple(out)
+        if isinstance(e, ast.Subscript) and isinstance(e.slice, ast.Slice):
+            lo = ev(e.slice.lower) if e.slice.lower is not None else None
+            hi = ev(e.slice.upper) if e.slice.upper is not None else None
+            st_ = ev(e.slice.step) if e.slice.step is not None else None
+            if not all(x is None or (isinstance(x, int) and not isinstance(x, bool)) for x in (lo, hi, st_)):
+                raise ValueError(norm(e))
+            return tuple(ev(e.value))[slice(lo, hi, st_)]
         if isinstance(e, ast.Subscript):
             return ev(e.value)[ev(e.slice)]
         if isinstance(e, ast.Call) and norm(e.func) == "range" and 1 <= len(e.args) <= 3 and not e.keywords:
@@ -249,23 +256,52 @@ def check_permutation(prog: Program, rep: Report) -> None:
                 def is_perm_call(v: ast.AST) -> bool:
                     return isinstance(v, ast.Call) and norm(v.func).endswith("permutation_3d") and len(v.args) == 2 \
                         and norm(v.args[1]) == dir_param and "separation" in norm(v.args[0])
-                ok = False
-                stars = [a for a in c.args if isinstance(a, ast.Starred)]
-                if len(stars) == 1:
-                    v = stars[0].value
+                # follow the permuted vector symbolically (P0, P1, P2) through assignments, (starred) unpacking and starred arguments:
+                # the call must receive P0, P1, P2 as consecutive arguments
+                P = ("P0", "P1", "P2")
+                env_: Dict[str, object] = {}
+
+                def val(v: ast.AST):
                     if is_perm_call(v):
-                        ok = True
-                    elif isinstance(v, ast.Name):
-                        d_ = [a for a in ast.walk(f2) if isinstance(a, ast.Assign) and norm(a.targets[0]) == v.id]
-                        ok = len(d_) == 1 and is_perm_call(d_[0].value)
-                elif not stars:
-                    # the three components unpacked from one permutation call and passed on in the same order
-                    for a in ast.walk(f2):
-                        if isinstance(a, ast.Assign) and isinstance(a.targets[0], (ast.Tuple, ast.List)) and len(a.targets[0].elts) == 3 \
-                                and is_perm_call(a.value):
-                            names = [norm(x) for x in a.targets[0].elts]
-                            passed = [norm(x) for x in c.args]
-                            ok = any(passed[i:i + 3] == names for i in range(len(passed) - 2))
+                        return P
+                    if isinstance(v, ast.Name):
+                        return env_.get(v.id)
+                    if isinstance(v, ast.Subscript) and isinstance(val(v.value), tuple):
+                        base = val(v.value)
+                        if isinstance(v.slice, ast.Constant) and isinstance(v.slice.value, int) and -len(base) <= v.slice.value < len(base):
+                            return base[v.slice.value]
+                        if isinstance(v.slice, ast.Slice) and all(x is None or (isinstance(x, ast.Constant) and isinstance(x.value, int))
+                                                                   for x in (v.slice.lower, v.slice.upper, v.slice.step)):
+                            return base[slice(*(None if x is None else x.value for x in (v.slice.lower, v.slice.upper, v.slice.step)))]
+                    return None
+                for a in sorted((x for x in ast.walk(f2) if isinstance(x, ast.Assign) and len(x.targets) == 1), key=lambda x: (x.lineno, x.col_offset)):
+                    v = val(a.value)
+                    t = a.targets[0]
+                    if isinstance(t, ast.Name):
+                        env_[t.id] = v
+                    elif isinstance(t, (ast.Tuple, ast.List)) and isinstance(v, tuple):
+                        stars_t = [k for k, x in enumerate(t.elts) if isinstance(x, ast.Starred)]
+                        if not stars_t and len(t.elts) == len(v):
+                            for x, vv in zip(t.elts, v):
+                                if isinstance(x, ast.Name):
+                                    env_[x.id] = vv
+                        elif len(stars_t) == 1 and len(t.elts) - 1 <= len(v):
+                            k = stars_t[0]
+                            tail = len(t.elts) - 1 - k
+                            parts = list(v[:k]) + [tuple(v[k:len(v) - tail])] + list(v[len(v) - tail:])
+                            for x, vv in zip(t.elts, parts):
+                                x = x.value if isinstance(x, ast.Starred) else x
+                                if isinstance(x, ast.Name):
+                                    env_[x.id] = vv
+                passed: List[object] = []
+                for a in c.args:
+                    if isinstance(a, ast.Starred):
+                        v = val(a.value)
+                        passed.extend(v if isinstance(v, tuple) else ["?"])
+                    else:
+                        v = val(a)
+                        passed.append(v if isinstance(v, str) else "?")
+                ok = any(tuple(passed[k:k + 3]) == P for k in range(len(passed) - 2))
                 rep.ob("R3.3-c-call-permuted", ok, Loc(m2.file, c.lineno, f"{ci.name + '.' if ci else ''}{f2.name}"), c,
                        "the C routine works along x: it must receive the separation permuted for this method's direction")
     rep.expect_min("R3.3-c-call-permuted", 3)
@@ -454,18 +490,19 @@ def check_velocity_analysis(prog: Program, rep: Report) -> None:
     rep.ob("R3.5-velocity-analysis", ok, loc, "returns (axis, velocity[axis])", "the speed must be the component of the velocity along the axis found")
     ok = False
     if d is not None:
-        R = Resolver(d)
-        unpack = [a for a in ast.walk(d) if isinstance(a, ast.Assign) and isinstance(a.targets[0], (ast.Tuple, ast.List)) and len(a.targets[0].elts) == 2
-                  and isinstance(a.value, ast.Call) and norm(a.value.func).endswith("_analyse_velocity")]
-        if len(unpack) == 1:
-            axis, speed = (norm(x) for x in unpack[0].targets[0].elts)
+        R = Resolver(d, unpack_calls=True)
+        # the analysed velocity may be unpacked, kept as a pair and indexed, or be a record read by field (normalised to an index): after
+        # resolving locals the axis argument is component 0 and the factor component 1 of the very same analysis call
+        calls = [c_ for c_ in ast.walk(d) if isinstance(c_, ast.Call) and norm(c_.func).endswith("_analyse_velocity")]
+        if len(calls) == 1:
+            ct = norm(calls[0])
             for r in ast.walk(d):
                 if isinstance(r, ast.Return) and r.value is not None:
                     v = R.res(r.value)
                     if isinstance(v, ast.BinOp) and isinstance(v.op, ast.Mult):
                         for call, other in ((v.left, v.right), (v.right, v.left)):
                             if isinstance(call, ast.Call) and norm(call.func).endswith("standard_velocity_derivative") and call.args \
-                                    and norm(call.args[0]) == axis and norm(other) == speed:
+                                    and norm(call.args[0]) == f"{ct}[0]" and norm(other) == f"{ct}[1]":
                                 ok = True
     rep.ob("R3.5-derivative-is-space-derivative-times-speed", ok, Loc(c.file, d.lineno if d else 0, "StandardVelocityPotential.derivative"),
            "standard_velocity_derivative(axis, ...) * speed", "the rate must be the space derivative along the axis of motion times the speed")
